@@ -100,7 +100,11 @@ func bufMode(sc *scenario) string {
 func countEnv(r *rep.Reporter, sc *scenario, rg *rig, eng *engine) {
 	mode := bufMode(sc)
 	r.Count("sessions_buffer_"+mode, 1)
-	r.Distinct("buffer_directives", strings.ReplaceAll(sc.Buffer, bufDir(), "DIR"))
+	dirv := sc.Buffer
+	if sc.BufDir != "" {
+		dirv = strings.ReplaceAll(dirv, sc.BufDir, bufDir()) // group F: the case's own directory
+	}
+	r.Distinct("buffer_directives", strings.ReplaceAll(dirv, bufDir(), "DIR"))
 	if sc.V6 {
 		r.Count("sessions_ipv6", 1)
 		if sc.Limits {
